@@ -2786,7 +2786,7 @@ func (s *SQLiteStore) RecordAttempt(attempt DeliveryAttempt) error {
 	}
 
 	var statusCode any
-	if attempt.StatusCode > 0 {
+	if attempt.StatusCode != 0 {
 		statusCode = attempt.StatusCode
 	}
 	var errVal any
